@@ -83,12 +83,10 @@ MCNext ==
   \/ \E id \in DOMAIN blocks \ {head} : \E fin \in Finals(blocks, id) :
           Reset(id, blocks, fin, <<>>) /\ act' = [op |-> "reset", id |-> id, block |-> blocks[id], final |-> fin]
   \/ \E i \in 1..NTips : SetGasTip(TipTable[i]) /\ act' = [op |-> "settip", tip |-> TipTable[i]]
-  \/ Reopen /\ act' = [op |-> "reopen"]
+  \/ Reopen(<<>>) /\ act' = [op |-> "reopen"]
   \/ /\ Crash
      /\ \E g \in SUBSET ghosts : \E lg \in SUBSET lghosts :
-          /\ \A e \in g : e.id \notin {x.id : x \in AllEntries(pool.idx)}
-          /\ \A e \in lg : e.id \notin {x.id : x \in pool.limbo}
-          /\ CrashReopen(AllEntries(pool.idx) \cup g, pool.limbo \cup lg)
+          /\ CrashReopen(PoolTxs(pool) \cup {e.tx : e \in g}, LimboTxs(pool) \cup {[tx |-> x.tx, block |-> x.block] : x \in lg}, <<>>)
           /\ act' = [op |-> "crash"]
 
 (* deleted entries stay on disk until their slot is reused or the pool is closed cleanly *)
